@@ -84,12 +84,31 @@ def h_wrap(pbc, natoms):
                 ob.append((f'cell vector {i} (non-periodic) only stretched', band(*[eq(c, 0, 1e4) for c in cr], le(sum(V[i][j] * V[i][j] for j in range(3)), sum(nV[i][j] * V[i][j] for j in range(3)), 1e4))))
         ob.append(('other per-atom properties untouched', band(alleq(s.atoms.stuff, extra), [int(t) for t in s.atoms.atype] == list(range(1, natoms + 1)))))
         ob.append(('pbc untouched', tuple(bool(x) for x in s.pbc) == tuple(pbc)))
-        # the wrapped system is self-consistent: its own cell (whatever it caches) reports the same relative coordinates as the
-        # cell vectors and origin it shows: s_code . det == numerators of Cramer's rule
-        sp = s.atoms_prop('pos', scale=True) if not all(pbc) else None       # only where the cell can have been enlarged (and its cached quantities must follow)
-        for k in range(min(natoms, 2) if sp is not None else 0):
-            num, den = rel([[nV[i][j] for j in range(3)] for i in range(3)], [nO[j] for j in range(3)], [newpos[k, j] for j in range(3)])
-            ob.append((f'atom {k}: box-relative coordinates reported by the wrapped system agree with its cell vectors and origin', band(*[eq(sp[k, i] * den, num[i], 1e5) for i in range(3)])))
+        return ob
+    return fn
+
+
+def h_wrap_selfconsistent():
+    """concrete samples: after wrap() the system's own cell (including whatever it caches, e.g. reciprocal vectors) agrees with
+    the cell vectors and origin it shows, and wrapping again changes nothing.  (As symbolic obligations these rational identities cost
+    ~35 unknown answers per run; staleness of a cache does not depend on the values.)"""
+    def fn():
+        import atomman as am
+        ob = []
+        for name, box, pbc in (('triclinic TTF', am.Box(lx=3.0, ly=2.5, lz=2.0, xy=0.7, xz=-0.4, yz=0.3, origin=[0.1, 0.2, -0.3]), (True, True, False)),
+                               ('orthorhombic FTF', am.Box.orthorhombic(3.0, 4.0, 5.0), (False, True, False)), ('triclinic TTT', am.Box(lx=3.0, ly=2.5, lz=2.0, xy=0.7, xz=-0.4, yz=0.3), (True, True, True))):
+            pos = np.array([[0.5, 0.4, -1.3], [7.9, -3.1, 4.4], [1.0, 1.0, 1.0], [-2.2, 6.0, 0.7]])
+            s = am.System(atoms=am.Atoms(pos=pos.copy()), box=box, pbc=pbc)
+            s.atoms_prop('pos', scale=True)                 # a scaled-position query before wrapping (fills any cache)
+            s.wrap()
+            V = np.array(s.box.vects, float); O = np.array(s.box.origin, float)
+            sp = s.atoms_prop('pos', scale=True)
+            want = (np.array(s.atoms.pos, float) - O).dot(np.linalg.inv(V))
+            ok = np.allclose(sp, want, atol=1e-9) and bool(np.all(sp >= -1e-9) and np.all(sp <= 1 + 1e-9)) and bool(np.all(s.box.inside(s.atoms.pos, inclusive=True) | np.isclose(sp, 0).any(axis=1) | np.isclose(sp, 1).any(axis=1)))
+            before = np.array(s.atoms.pos, float).copy(); Vb = V.copy()
+            s.wrap()
+            ok = ok and np.allclose(np.array(s.atoms.pos, float), before, atol=1e-9) and np.allclose(np.array(s.box.vects, float), Vb, atol=1e-9)
+            ob.append((f'{name}: after wrap() the system\'s own box-relative coordinates agree with its cell vectors and origin, lie in [0,1], and a second wrap() changes nothing', bool(ok)))
         return ob
     return fn
 
@@ -168,7 +187,7 @@ def h_normalize(name, vects, org, natoms=2):
 
 
 def cases(tier, seed=0):
-    cs = []
+    cs = [Case('wrap_selfconsistent', h_wrap_selfconsistent(), concrete_only=True, budget_s=60, descr='CONCRETE SAMPLES: the wrapped system is self-consistent (cached cell quantities), second wrap is the identity')]
     for pbc in PBCS:
         cs.append(Case(f'wrap_{pstr(pbc)}', h_wrap(pbc, 2 if tier == 'quick' else 3), bind=BIND, budget_s=170 if tier == 'quick' else 900, timeout_ms=20000, max_paths=600,
                        weight=2 + 3 - sum(pbc), descr=f'System.wrap, pbc {pstr(pbc)}, symbolic cell/origin/atoms'))
